@@ -156,7 +156,14 @@ impl Dec {
     #[inline]
     pub fn range(&mut self, kind: K, lo: u64, hi: u64) -> u64 {
         debug_assert!(hi >= lo);
-        let span = hi - lo + 1;
+        let span = (hi - lo).wrapping_add(1);
+        if span == 0 {
+            // the full 64-bit range
+            let a = u64::from(self.choose(kind, u32::MAX));
+            let b = u64::from(self.choose(kind, u32::MAX));
+            let c = u64::from(self.choose(kind, 4));
+            return (a << 33) ^ (b << 2) ^ c;
+        }
         if span <= u64::from(u32::MAX) {
             lo + u64::from(self.choose(kind, span as u32))
         } else {
